@@ -29,6 +29,7 @@ pub struct Session {
     pub log: Vec<Ev>,
     start: Instant,
     pub out_eof: bool,
+    pub err_eof: bool,
     pub event_log: Option<PathBuf>,
     /// keep received lines in `log` (switched off for bulk command streams)
     pub keep_log: bool,
@@ -110,7 +111,7 @@ impl Session {
             }
             let _ = tx2.send((Kind::ErrEof, String::new()));
         });
-        Ok(Session { child, stdin, rx, log: vec![], start: Instant::now(), out_eof: false, event_log, keep_log: true })
+        Ok(Session { child, stdin, rx, log: vec![], start: Instant::now(), out_eof: false, err_eof: false, event_log, keep_log: true })
     }
 
     fn now_us(&self) -> u64 {
@@ -138,6 +139,9 @@ impl Session {
         let ev = Ev { t_us: self.now_us(), kind: kind.clone(), text };
         if kind == Kind::OutEof {
             self.out_eof = true;
+        }
+        if kind == Kind::ErrEof {
+            self.err_eof = true;
         }
         if self.keep_log || kind != Kind::Out {
             self.log.push(ev.clone());
@@ -200,8 +204,13 @@ impl Session {
         loop {
             match self.child.try_wait() {
                 Ok(Some(st)) => {
-                    // collect the tail of the output
-                    self.drain(Duration::from_millis(50));
+                    // collect the tail of the output: the reader threads deliver what is left
+                    // in the pipes and then an end-of-stream marker each (a fixed short drain
+                    // lost lines when a reader thread was descheduled under load)
+                    let end = Instant::now() + Duration::from_secs(10);
+                    while !(self.out_eof && self.err_eof) && Instant::now() < end {
+                        let _ = self.next(Duration::from_millis(100));
+                    }
                     return Some(st);
                 }
                 Ok(None) => {}
